@@ -25,7 +25,7 @@ RULE = ("Hypothesis: (a) LGANMs with signed dyadic weights (p<=5), noise varianc
         "integer projections, lag-1 row autocorrelation, no two equal rows when the law is non-degenerate, exactly degenerate "
         "coordinates constant within 1e-6*(1+sqrt(trace)+|c|), and a pooled variance statistic over all cases of a job. "
         "Bounds |z|<=8, sqrt(n)*KS<=3.8. Non-trivial = n = 20,000 and (negative weight, or a variance != 1, or an intervention "
-        "on a non-source node, or singular Sigma).")
+        "on a non-source node, or singular Sigma). Also: variances 2^-20..2^-28 next to O(1) ones and per-coordinate units (coordinates more than 1e10 below the largest variance are only required to be numerically constant), models relabelled into 9..12 variables, integer means, an earlier call on the same model with a hash-colliding parameter.")
 ASSUMPTIONS = [
     "population law = exact Fraction solution of the intervened equations (C01 oracle) / the given (mean, Sigma)",
     "per-statistic false-alarm probability < 1e-12 for any correct sampler; detectable: relative variance error >= 8% per case, ~1% pooled per job, mean shift >= 0.06 sigma",
